@@ -11,7 +11,7 @@ import time
 
 HERE = os.path.dirname(os.path.abspath(__file__))
 sys.path.insert(0, HERE)
-BUILD = os.path.join(HERE, '.build')
+BUILD = os.environ.get('VERIF_BUILD', os.path.join(HERE, '.build'))
 REPO = os.environ.get('PURL_REPO', '/repo')
 
 FEATURE_SETS = {
@@ -61,7 +61,18 @@ def dump_mir(fset, digest):
 def build_native(fset='default', release=False):
     feats = NATIVE_FEATURES[fset]
     tdir = os.path.join(BUILD, 'native-' + fset)
-    cmd = ['cargo', 'build', '--offline', '--manifest-path', os.path.join(HERE, 'native', 'Cargo.toml'),
+    manifest = os.path.join(HERE, 'native', 'Cargo.toml')
+    if REPO != '/repo':
+        # analysing a copy of the repository: build the oracle against that copy
+        import shutil
+        src = os.path.join(BUILD, 'native-src')
+        if os.path.exists(src):
+            shutil.rmtree(src)
+        shutil.copytree(os.path.join(HERE, 'native'), src)
+        mt = open(os.path.join(src, 'Cargo.toml')).read().replace('path = "/repo/purl"', 'path = "%s/purl"' % REPO)
+        open(os.path.join(src, 'Cargo.toml'), 'w').write(mt)
+        manifest = os.path.join(src, 'Cargo.toml')
+    cmd = ['cargo', 'build', '--offline', '--manifest-path', manifest,
            '--target-dir', tdir, '--no-default-features']
     if feats:
         cmd += ['--features', feats]
@@ -179,7 +190,11 @@ def run_check(pid, tier, seed, workers, only, write_evidence, cap=None):
     inconclusive = []
     corpus_n = 0
     if 'default' in progs or 'serde' in progs:
-        corpus_n, bad = corpus.validate(progs.get('default') or progs['serde'], E.Native(build_native('default')), REPO)
+        try:
+            corpus_n, bad = corpus.validate(progs.get('default') or progs['serde'], E.Native(build_native('default')), REPO)
+        except Exception as e:       # an engine failure is inconclusive, never a verdict
+            import traceback
+            corpus_n, bad = 0, ['engine error on the repository\'s own test inputs: ' + traceback.format_exc()[-400:]]
         for b in bad[:3]:
             inconclusive.append('ENGINE-MISMATCH on the repository\'s own test input: ' + b)
     queries = mod.queries(tier)
